@@ -7,6 +7,6 @@ MANAGER_ALL = [M + "Module.send_message"] + [M + "MessageManager." + f for f in 
 C = "pyrtma.client:"
 CLIENT_SIDECARS = ["contracts.manager_model", "contracts.manager_contracts", "contracts.client_contracts"]
 CLIENT_C02 = [C + "Client." + f for f in ("_subscription_control", "subscribe", "unsubscribe", "pause_subscription", "resume_subscription",
-              "unsubscribe_from_all", "pause_all_subscriptions", "resume_all_subscriptions", "subscription_context", "paused_subscription_context", "send_message", "_sendall")]
+              "unsubscribe_from_all", "pause_all_subscriptions", "resume_all_subscriptions", "subscription_context", "paused_subscription_context", "send_message", "_sendall", "disconnect")]
 CLIENT_C08 = [C + "Client." + f for f in ("_read_message", "read_message", "_recv_discard", "_wait_for_acknowledgement", "_sendall", "send_message")]
-CLIENT_C06 = [C + "Client." + f for f in ("_connect_helper", "connect", "send_module_ready", "send_message", "_wait_for_acknowledgement")] + [C + "client_context"]
+CLIENT_C06 = [C + "Client." + f for f in ("_connect_helper", "connect", "send_module_ready", "send_message", "_wait_for_acknowledgement", "disconnect")] + [C + "client_context"]
